@@ -1065,6 +1065,14 @@ def suite_gen(which: set[str]):
                         compare("BitBirch_init", mdl_args, real, exp_tab=proxy.calls)
                         compare("BitBirch_tolerance", list(cfg_of(est)), est.tolerance)
                         compare("BitBirch_merge_criterion", list(cfg_of(est)), est.merge_criterion)
+                        if rng.random() < 0.5:
+                            # reset (with and without a fitted tree) leaves the configuration as it is
+                            if rng.random() < 0.6:
+                                est.fit(np.asarray([[1, 0, 1, 0, 1, 1, 0, 0], [0, 1, 1, 0, 0, 1, 0, 1]], dtype=np.uint8), input_is_packed=False)
+                            cfg0 = cfg_of(est)
+                            root_tok = None if est._root is None else 1
+                            est.reset()
+                            compare("BitBirch_reset", list(cfg0) + [root_tok], cfg_of(est))
                         for _ in range(rng.randint(1, 3)):
                             before = cfg_of(est)
                             # the object held before the call may be changed in place (set_merge(tolerance=...)): snapshot it
